@@ -1808,6 +1808,22 @@ fn eval_c15(case: &Case) -> Eval {
     }
     // inspection does not perturb: the solo run had no vars() calls, the main run may have
 
+    // hidden state: the same case executed again later in the same process (after the solo
+    // run) must give the same event log, entropy and hash order being injected
+    let again = run_case(case);
+    ev.runs += 1;
+    ev.ticks += again.ticks;
+    if again.log_hash != out.log_hash {
+        ev.violation = Some(Violation {
+            oracle: "C15.repeat",
+            detail: "executing the same case (same text, signal list, driver responses, \
+                     injected entropy and hash order) a second time in the same process gave a \
+                     different event log: behaviour depends on something else"
+                .into(),
+        });
+        return ev;
+    }
+
     // static vs dynamic
     let reads = crate::reference::read_outputs(&case.program);
     match &out.statik {
